@@ -96,14 +96,13 @@ Record latch_req := {
 }.
 
 (* the specified next latch bit as a term over: the bit (vL > 0), set > 0, reset > 0 *)
-Definition latch_atoms (ds : list decl) (l : latch_req) : term * term * term :=
-  let vals := den_prog talg ds in
+Definition latch_atoms (U : list sig) (ds : list decl) (l : latch_req) : term * term * term :=
   (mk_cmp CGt (TV (l_var l)) (TC 0),
-   mk_cmp CGt (den talg vals (l_set l)) (TC 0),
-   mk_cmp CGt (den talg vals (l_reset l)) (TC 0)).
+   mk_cmp CGt (sden U ds (l_set l)) (TC 0),
+   mk_cmp CGt (sden U ds (l_reset l)) (TC 0)).
 
-Definition latch_spec_term (ds : list decl) (l : latch_req) : term :=
-  let '(L, s, r) := latch_atoms ds l in
+Definition latch_spec_term (U : list sig) (ds : list decl) (l : latch_req) : term :=
+  let '(L, s, r) := latch_atoms U ds l in
   if l_set_first l then mk_or s (mk_and L (mk_not r))
   else mk_and (mk_not r) (mk_or s L).
 
@@ -114,10 +113,10 @@ Definition latch_next (st' : state term) (l : latch_req) : term :=
 (* the positive atom of a (possibly negated) comparison *)
 Definition pos_atom (t : term) : term := match t with TNot x => x | _ => t end.
 
-Definition latch_ok (ds : list decl) (st' : state term) (l : latch_req) : bool :=
-  let '(L, s, r) := latch_atoms ds l in
+Definition latch_ok (U : list sig) (ds : list decl) (st' : state term) (l : latch_req) : bool :=
+  let '(L, s, r) := latch_atoms U ds l in
   let nx := latch_next st' l in
-  let sp := latch_spec_term ds l in
+  let sp := latch_spec_term U ds l in
   (* case split on the bit itself, then on the boolean atoms *)
   forallb (fun bit =>
      equiv_on [pos_atom s; pos_atom r] (subst (TV (l_var l)) (tc01 bit) nx) (subst (TV (l_var l)) (tc01 bit) sp))
@@ -126,10 +125,10 @@ Definition latch_ok (ds : list decl) (st' : state term) (l : latch_req) : bool :
   && only_sig (nth (l_ent l) st' []) (l_sig l).
 
 (* the rows in which the emitted latch differs from the specification: (bit, set, reset) *)
-Definition latch_diff_rows (ds : list decl) (st' : state term) (l : latch_req) : list (bool * bool * bool) :=
-  let '(L, s, r) := latch_atoms ds l in
+Definition latch_diff_rows (U : list sig) (ds : list decl) (st' : state term) (l : latch_req) : list (bool * bool * bool) :=
+  let '(L, s, r) := latch_atoms U ds l in
   let nx := latch_next st' l in
-  let sp := latch_spec_term ds l in
+  let sp := latch_spec_term U ds l in
   filter (fun row => let '(bit, sv, rv) := row in
             (* sv / rv are the truth values of set > 0 and reset > 0 themselves *)
             let sv' := match s with TNot _ => negb sv | _ => sv end in
@@ -145,9 +144,9 @@ Definition check_latches (b : bp) (cut : cut_t) (fuel : nat) (ds : list decl)
   | None => None
   | Some (k, st, st') =>
       let fb := freeze b cut in
-      if forallb (fun ot => term_eqb (observe talg fb st (fst ot)) (snd ot)) (c01_outs ds qs)
-         && forallb (pc_ok fb st) (prog_pcs ds rs)
-         && forallb (latch_ok ds st') ls
+      if forallb (fun ot => term_eqb (observe talg fb st (fst ot)) (snd ot)) (c01_outs (b_univ b) ds qs)
+         && forallb (pc_ok fb st) (prog_pcs (b_univ b) ds rs)
+         && forallb (latch_ok (b_univ b) ds st') ls
       then Some k else None
   end.
 
@@ -159,43 +158,39 @@ Theorem check_latches_sound b cut fuel ds qs rs ls k :
   exists st : state term,
   forall env : var -> Z,
     let s := map (hm (eval env)) st in
-    let vals := den_prog (zalg env) ds in
+    let U := b_univ b in
     step (zalg env) (freeze b cut) s = s /\
     (forall l, In l ls ->
        (* the latch bit is 0 or 1 *)
        (wrap32 (env (l_var l)) = 0 \/ wrap32 (env (l_var l)) = 1) ->
        let s' := step (zalg env) b s in
        let bit := wrap32 (env (l_var l)) >? 0 in
-       let sa := den (zalg env) vals (l_set l) >? 0 in
-       let ra := den (zalg env) vals (l_reset l) >? 0 in
+       let sa := zden env U ds (l_set l) >? 0 in
+       let ra := zden env U ds (l_reset l) >? 0 in
        zget env (nth (l_ent l) s' []) (l_sig l)
        = b2z (if l_set_first l then sa || (bit && negb ra) else negb ra && (sa || bit))).
 Proof.
   unfold check_latches. destruct (cell_step b cut fuel) as [[[k' st] st']|] eqn:CS; [|discriminate].
-  destruct (forallb _ (c01_outs ds qs) && forallb _ (prog_pcs ds rs) && forallb _ ls) eqn:Q; [|discriminate].
+  destruct (forallb _ (c01_outs (b_univ b) ds qs) && forallb _ (prog_pcs (b_univ b) ds rs) && forallb _ ls) eqn:Q; [|discriminate].
   intros _. exists st. intros env. cbv zeta.
-  set (s := map (hm (eval env)) st). set (vals := den_prog (zalg env) ds).
+  set (s := map (hm (eval env)) st). set (U := b_univ b).
   destruct (cell_step_sound b cut fuel k' st st' CS env) as [S1 S2]. fold s in S1, S2.
   apply andb_true_iff in Q as [_ Q3].
   split; [exact S1|].
   intros l Hl Hbit.
-  rewrite forallb_forall in Q3. specialize (Q3 _ Hl). unfold latch_ok in Q3.
-  destruct (latch_atoms ds l) as [[La sa] ra] eqn:EA.
+  rewrite forallb_forall in Q3. specialize (Q3 _ Hl). unfold latch_ok in Q3. fold U in Q3.
+  destruct (latch_atoms U ds l) as [[La sa] ra] eqn:EA.
   apply andb_true_iff in Q3 as [Q3 _]. apply andb_true_iff in Q3 as [Q3 A2]. apply andb_true_iff in Q3 as [Q3 A1].
   cbn [forallb] in Q3. apply andb_true_iff in Q3 as [Q0 Q1]. apply andb_true_iff in Q1 as [Q1 _].
   assert (N : forall i, nth i (step (zalg env) b s) [] = hm (eval env) (nth i st' [])).
   { intros i. rewrite S2. change [] with (hm (eval env) []) at 1. apply map_nth. }
-  assert (VAL : map (eval env) (den_prog talg ds) = vals)
-    by apply (den_prog_hom talg (zalg env) (eval env) (talg_hom env)).
-  assert (DEN : forall e, eval env (den talg (den_prog talg ds) e) = den (zalg env) vals e).
-  { intros e. rewrite (den_hom talg (zalg env) (eval env) (talg_hom env)), VAL. reflexivity. }
   unfold latch_atoms in EA. inversion EA; subst La sa ra. clear EA.
-  set (sa := mk_cmp CGt (den talg (den_prog talg ds) (l_set l)) (TC 0)) in *.
-  set (ra := mk_cmp CGt (den talg (den_prog talg ds) (l_reset l)) (TC 0)) in *.
+  set (sa := mk_cmp CGt (sden U ds (l_set l)) (TC 0)) in *.
+  set (ra := mk_cmp CGt (sden U ds (l_reset l)) (TC 0)) in *.
   assert (F : Forall (fun a => eval env a = 0 \/ eval env a = 1) [pos_atom sa; pos_atom ra]).
   { constructor; [apply is01_sound, A1|]. constructor; [apply is01_sound, A2|]. constructor. }
   (* pick the case of the bit *)
-  assert (EQ : eval env (latch_next st' l) = eval env (latch_spec_term ds l)).
+  assert (EQ : eval env (latch_next st' l) = eval env (latch_spec_term U ds l)).
   { destruct Hbit as [Hb|Hb].
     - pose proof (equiv_on_sound _ _ _ Q0 env F) as E.
       rewrite !subst_sound in E by (cbn [eval tc01]; rewrite Hb; reflexivity). exact E.
@@ -207,7 +202,7 @@ Proof.
   assert (NZ : forall bb : bool, nz (b2z bb) = bb) by (intros []; reflexivity).
   destruct (l_set_first l);
     rewrite ?mk_or_sound, ?mk_and_sound, ?mk_not_sound, ?mk_or_sound, ?mk_and_sound; unfold sa, ra;
-    rewrite !mk_cmp_sound, !DEN; cbn [eval cmp]; rewrite wrap32_0, !NZ; reflexivity.
+    rewrite !mk_cmp_sound, !sden_sound; cbn [eval cmp]; rewrite wrap32_0, !NZ; reflexivity.
 Qed.
 
 (* ---------------------------------------------------------------- feedback rings (C04) *)
@@ -255,11 +250,11 @@ Definition check_ring (b : bp) (cut : cut_t) (fuel : nat) (ds : list decl)
   | None => None
   | Some (k, st, st') =>
       let fb := freeze b cut in
-      if forallb (fun ot => term_eqb (observe talg fb st (fst ot)) (snd ot)) (c01_outs ds qs)
-         && forallb (pc_ok fb st) (prog_pcs ds rs)
+      if forallb (fun ot => term_eqb (observe talg fb st (fst ot)) (snd ot)) (c01_outs (b_univ b) ds qs)
+         && forallb (pc_ok fb st) (prog_pcs (b_univ b) ds rs)
          && ring_shape st' (map r_var stages) (last_var stages) stages
          && match compose st' stages None with
-            | Some t => term_eqb t (den talg (den_prog talg ds) fexpr)
+            | Some t => term_eqb t (sden (b_univ b) ds fexpr)
             | None => false
             end
       then Some (length stages) else None
@@ -272,7 +267,7 @@ Theorem check_ring_sound b cut fuel ds qs rs stages fexpr L :
     compose st' stages None = Some comp /\
     (* the composition of the stage functions around the ring is the written function of the
        value readers see, under every valuation of inputs and state *)
-    (forall env : var -> Z, eval env comp = den (zalg env) (den_prog (zalg env) ds) fexpr) /\
+    (forall env : var -> Z, eval env comp = zden env (b_univ b) ds fexpr) /\
     (* and every stage's next-state term is exactly what one real tick produces *)
     (forall env : var -> Z,
        let s := map (hm (eval env)) st in
@@ -282,14 +277,13 @@ Theorem check_ring_sound b cut fuel ds qs rs stages fexpr L :
          = eval env (get talg (nth (r_ent sg) st' []) (r_sig sg))).
 Proof.
   unfold check_ring. destruct (cell_step b cut fuel) as [[[k' st] st']|] eqn:CS; [|discriminate].
-  destruct (forallb _ (c01_outs ds qs) && forallb _ (prog_pcs ds rs) && ring_shape _ _ _ _ && _) eqn:Q; [|discriminate].
+  destruct (forallb _ (c01_outs (b_univ b) ds qs) && forallb _ (prog_pcs (b_univ b) ds rs) && ring_shape _ _ _ _ && _) eqn:Q; [|discriminate].
   intros E. inversion E. split; [reflexivity|].
   apply andb_true_iff in Q as [_ Q4].
   destruct (compose st' stages None) as [comp|] eqn:C; [|discriminate].
   apply term_eqb_eq in Q4.
   exists st, st', comp. split; [exact C|]. split.
-  - intros env. rewrite Q4, (den_hom talg (zalg env) (eval env) (talg_hom env)),
-                        (den_prog_hom talg (zalg env) (eval env) (talg_hom env)). reflexivity.
+  - intros env. rewrite Q4. apply sden_sound.
   - intros env. cbv zeta. destruct (cell_step_sound b cut fuel k' st st' CS env) as [S1 S2].
     split; [exact S1|]. intros sg _. unfold zget. rewrite S2.
     change [] with (hm (eval env) []) at 1. rewrite map_nth.
